@@ -1,6 +1,7 @@
 import Driver.State
 import TakVerif.Impl.PTN
 import TakVerif.Impl.PTNInst
+import TakVerif.Impl.PTNSafe
 import TakVerif.Impl.TextGlue
 import TakVerif.Impl.PTNReal
 
@@ -149,6 +150,19 @@ def handlePTN : Handler := fun st op args =>
         match parsePTN env (render env f) with
         | .error e => fmtErr' e
         | .ok g => if g.tags == f.tags && g.ops.map Op.clearSrc == f.ops.map Op.clearSrc then "same" else "differs")
+  | "ptnsafe", toks =>
+    -- the class of the value under the decidable safety predicate of `Impl/PTNSafe.lean` (`nomove`: some move is
+    -- not `moveSafe`; else `safe` / `lossy` = not `dataSafe`), then the outcome of render + parse as in `ptnrt`.
+    -- `C12.render_parse_bytes` says: `safe` goes with `same`, `lossy` never does.
+    some (st, match parseFile toks with
+      | none => "bad-file"
+      | some f =>
+        let env := mkEnv st noTps
+        let cls := if !movesSafe env f then "nomove" else if dataSafe env f then "safe" else "lossy"
+        let rt := match parsePTN env (render env f) with
+          | .error e => fmtErr' e
+          | .ok g => if g.sameAs f then "same" else "differs"
+        cls ++ " " ++ rt)
   | "ptnaddmoves", toks =>
     some (st, match toks.mapM Codec.parseMove with
       | none => "bad-move"
